@@ -10,6 +10,9 @@ from . import pytree_rows as P
 QUICK = dict(Mode="leaf", Depth=2, Width=2, NodeKinds={"tuple", "dict"}, AtomSet={"int", "arr2", "arr3"},
              SmallDepth=1, LeafSet={"int", "tup2", "any", "arrA", "arrV", "uAi", "tupA", "ptA", "uis", "ptptA", "uAshV"},
              MemoSet={"empty", "a2", "v2"})
+# leaves that are EQUAL but of different types (7 and 7.0), empty arrays (an axis bound to 0), wider containers
+EQUAL_EMPTY = dict(Mode="leaf", Depth=1, Width=3, NodeKinds={"tuple", "list"}, AtomSet={"int", "flt", "arr0", "arr3"},
+                   SmallDepth=1, LeafSet={"int", "arrA", "uAi", "ptA", "ptI", "any", "arrV"}, MemoSet={"empty", "a0", "a3"})
 THOROUGH = [
     dict(Mode="leaf", Depth=2, Width=2, NodeKinds={"tuple", "list", "dict"}, AtomSet={"int", "str", "arr2", "arr3"},
          SmallDepth=1, LeafSet={"int", "str", "tup2", "any", "arrA", "arrV", "uAi", "tupA", "ptA", "uis", "ptptA", "ptI", "utA"},
@@ -82,6 +85,8 @@ def main(tier):
     chk = Check("C08", tier)
     try:
         n, nb = P.run_table(chk, "C08", QUICK, "quick", P.LEAF_INVS)
+        n1, nb1 = P.run_table(chk, "C08", EQUAL_EMPTY, "equal_empty", P.LEAF_INVS)
+        nb += nb1
         bare_and_deep(chk, 3000 if tier == "quick" else 40000, chk.seed)
         if tier == "thorough":
             for i, u in enumerate(THOROUGH):
